@@ -701,6 +701,22 @@ func runC09(c *Ctx) {
 		} else if _, isCall := val.(*ssa.Call); isCall && !phiMeansReadonly {
 			return "?", "the gate arm takes readonly() as it is although the classification value stands for modifying"
 		}
+		// asked through an interface every classifying packet implements: the answer is that of the packet's own method
+		if call, ok := val.(*ssa.Call); ok && call.Call.IsInvoke() && call.Call.Method.Name() == "readonly" && types.IsInterface(call.Call.Value.Type()) {
+			switch typeName(t) {
+			case "sshFxpOpenPacket":
+				return "flags", "the gate asks the packet's own readonly(): (*sshFxpOpenPacket).readonly()"
+			case "sshFxpExtendedPacket":
+				return "specific", "the gate asks the packet's own readonly(): the extended packet's"
+			}
+			if ro, ok := constReadonlyOf(p, t); ok {
+				if ro {
+					return "true", "the gate asks the packet's own readonly(), which returns true"
+				}
+				return "false", "the gate asks the packet's own readonly(), which returns false"
+			}
+			return "?", "the gate asks " + typeName(t) + ".readonly(), which is not a constant"
+		}
 		if call, ok := val.(*ssa.Call); ok && calleeName(&call.Call) == "readonly" {
 			switch typeName(recvOf(&call.Call).Type()) {
 			case "sshFxpOpenPacket":
@@ -911,6 +927,29 @@ func runC09(c *Ctx) {
 			}
 		}
 	}
+}
+
+// constReadonlyOf: t's readonly() method returns one constant.
+func constReadonlyOf(p *Program, t types.Type) (bool, bool) {
+	m := p.methodOf(t, "readonly")
+	if m == nil || m.Blocks == nil {
+		return false, false
+	}
+	var res []bool
+	okAll := true
+	eachInstr(m, func(in ssa.Instruction) {
+		if r, ok := in.(*ssa.Return); ok {
+			if k, ok := r.Results[0].(*ssa.Const); ok && k.Value != nil {
+				res = append(res, constant.BoolVal(k.Value))
+			} else {
+				okAll = false
+			}
+		}
+	})
+	if !okAll || len(res) != 1 {
+		return false, false
+	}
+	return res[0], true
 }
 
 // usedOnlyAsValueIn: fn is never called by name and is mentioned (itself, or through the wrapper go/ssa makes for a
